@@ -1323,6 +1323,24 @@ fn c07_graceful(ix: &Ix, f: &mut Findings) {
 fn c08(ix: &Ix, f: &mut Findings) {
     for a in 0..ix.actors.len() {
         let x = &ix.actors[a];
+        // on_run is enabled from the start for every actor (only its own Ok(false) disables it): at the first quiescent instant
+        // at which a started actor is idle and nothing has begun to end it, on_run has been run at least once
+        if ix.sim() && x.started_ok() {
+            let start_pos = x.start_exit.map(|s| s.0).unwrap_or(usize::MAX);
+            if let Some(&sp) = ix.samples.iter().find(|s| **s > start_pos && matches!(&ix.log[**s].k, K::Sample { actor, phase, .. } if *actor == a && !phase.starts_with("client"))) {
+                let ending = x.c().map(|c| c < sp).unwrap_or(false)
+                    || x.ended_pos().map(|e| e < sp).unwrap_or(false)
+                    || x.first_hook_panic().map(|p| p < sp).unwrap_or(false)
+                    || x.kills.iter().any(|k| ix.ops[k].s < sp)
+                    || x.stops.iter().any(|k| ix.ops[k].s < sp);
+                if !ending && !ix.hook_in_progress(a, sp) && !ix.pending_work(a, sp) {
+                    f.o("C08.first_run");
+                    if !x.run_poll.iter().any(|r| r.0 < sp) {
+                        f.v("C08.first_run", Some(a), format!("actor {a} finished on_start and is idle at the quiescent instant at log position {sp} (nothing queued, nothing ending it), but its on_run has never been run"));
+                    }
+                }
+            }
+        }
         if x.run_poll.is_empty() {
             continue;
         }
